@@ -62,7 +62,7 @@ def run(ctx):
         ctx.constants["MC_WebOps_depth3"] = c3
         ctx.mc("frontends/MCWebOps", cfg_of(c3), name="MC WebOps (sequences of 3 requests)", timeout=6000, coverage=False)
 
-    traces = ctx.impl("harness/webops_driver.py", ["--n", 28 if q else 400, "--len", 36 if q else 50, "--jobs", 4], timeout=6000)
+    traces = ctx.impl("harness/webops_driver.py", ["--n", 36 if q else 400, "--len", 36 if q else 50, "--jobs", 4], timeout=6000)
     reqs = 0
     for tr in traces:
         evs = tr["events"]
